@@ -31,18 +31,18 @@ import (
 
 // RaceCase is a case of the race scenario.
 type RaceCase struct {
-	Workers  int      `json:"workers"`
-	InCh     int      `json:"in_ch"`
-	Store    bool     `json:"store"`
-	Epochs   int      `json:"epochs"`
-	MidStop  []int    `json:"mid_stop"`
-	Reqs     []string `json:"reqs"`     // request subjects, injected by the scheduler
-	Prods    [][]string `json:"prods"`  // producer scripts: with:<id> withgroup:<g> withres:<id> emit:<id> reset resetall token tokenreset
-	Muts     [][]string `json:"muts"`   // store mutator scripts: create:<id>:<k> update:<id>:<k> delete:<id>
-	Queries  int      `json:"queries"`  // index queries by the querier task
-	QueryMs  int      `json:"query_ms"`
-	StdLog   bool     `json:"std_log"`
-	Optional []string `json:"optional"`
+	Workers  int        `json:"workers"`
+	InCh     int        `json:"in_ch"`
+	Store    bool       `json:"store"`
+	Epochs   int        `json:"epochs"`
+	MidStop  []int      `json:"mid_stop"`
+	Reqs     []string   `json:"reqs"`    // request subjects, injected by the scheduler
+	Prods    [][]string `json:"prods"`   // producer scripts: with:<id> withgroup:<g> withres:<id> emit:<id> reset resetall token tokenreset
+	Muts     [][]string `json:"muts"`    // store mutator scripts: create:<id>:<k> update:<id>:<k> delete:<id>
+	Queries  int        `json:"queries"` // index queries by the querier task
+	QueryMs  int        `json:"query_ms"`
+	StdLog   bool       `json:"std_log"`
+	Optional []string   `json:"optional"`
 }
 
 // RaceScenario is the scenario of C16.
